@@ -173,6 +173,11 @@ Theorem c09_model_runs_shift_ok :
              c09_shift_ok da db dc (ftrace cci s ops) (ftrace cci s2 (map (shift_op da db) ops)) = true.
 Proof. exact (@model_runs_shift_ok). Qed.
 
+(* the fingerprint-level guard of the metamorphic check judges a trace and its relabelling alike *)
+Theorem c09_within_tol_shift : forall (da db dc tol : Z) (tr : list fstep),
+  c09_within_tol tol (map (shift_fstep da db dc) tr) = c09_within_tol tol tr.
+Proof. exact c09_within_tol_shift. Qed.
+
 (* the guard is satisfiable: a scenario whose numbers wrap inside the transfer, with a timeout, a
    fast recovery and both FINs *)
 Theorem c09_guard_satisfiable : ex_guard ex_ops = true /\ ex_reaches ex_ops = true.
@@ -204,5 +209,6 @@ Print Assumptions c09_ftrace_shift.
 Print Assumptions c09_model_trace_shift_ok.
 Print Assumptions c09_vsock_new_shift.
 Print Assumptions c09_model_runs_shift_ok.
+Print Assumptions c09_within_tol_shift.
 Print Assumptions c09_guard_satisfiable.
 Print Assumptions c09_shift_outside_guard_refuted.
